@@ -90,10 +90,7 @@ def ensure_built(pid=None):
         cwd=COQ, check=True, stdout=subprocess.DEVNULL, stderr=subprocess.DEVNULL,
     )
     target = [f"properties/{pid}.vo"] if pid else []
-    r = subprocess.run(
-        ["timeout", "3000", "make", "-f", mkname, "-j", str(NPROC), *target],
-        cwd=COQ, stdout=subprocess.PIPE, stderr=subprocess.STDOUT, text=True,
-    )
+    r = _run_retry(["timeout", "3000", "make", "-f", mkname, "-j", str(NPROC), *target])
     return r.returncode == 0, r.stdout
 
 
@@ -144,10 +141,7 @@ def audit_property_file(pid):
     with tempfile.TemporaryDirectory(prefix="verif_audit_") as td:
         tmpv = Path(td) / f"{pid}_audit.v"
         tmpv.write_text(src)
-        r = subprocess.run(
-            ["timeout", "600", "coqc", *COQ_FLAGS, str(tmpv)],
-            cwd=COQ, stdout=subprocess.PIPE, stderr=subprocess.STDOUT, text=True,
-        )
+        r = _run_retry(["timeout", "600", "coqc", *COQ_FLAGS, str(tmpv)])
     out = r.stdout
     blocks = []
     # each Print Assumptions prints either "Closed under the global context" or "Axioms:\n..."
@@ -202,11 +196,22 @@ def _parse_nat_list(out):
     return [int(x) for x in re.findall(r"\d+", body)]
 
 
+def _run_retry(cmd, tries=3):
+    """Runs a Coq tool.  A non-zero exit WITHOUT a Coq error message ("Error:") is a process that was killed or timed
+    out (memory pressure, overloaded machine), not a verdict of the kernel: it is run again (up to [tries] times, alone).
+    A Coq error is deterministic and is never retried."""
+    import time as _time
+    r = None
+    for k in range(tries):
+        r = subprocess.run(cmd, cwd=COQ, stdout=subprocess.PIPE, stderr=subprocess.STDOUT, text=True)
+        if r.returncode == 0 or "Error:" in r.stdout:
+            break
+        _time.sleep(2 + 5 * k)
+    return r
+
+
 def _coqc_file(path):
-    r = subprocess.run(
-        ["timeout", "1200", "coqc", *COQ_FLAGS, str(path)],
-        cwd=COQ, stdout=subprocess.PIPE, stderr=subprocess.STDOUT, text=True,
-    )
+    r = _run_retry(["timeout", "1200", "coqc", *COQ_FLAGS, str(path)])
     return r.returncode, r.stdout
 
 
